@@ -342,6 +342,35 @@ def refresh_gate(sx):
         env.close()
 
 
+def zero_pause(sx):
+    """PAUSE_BETWEEN_RETRIES configured as 0 (a value of the mutable configuration): every caller still completes
+    within retry-count x timeout"""
+    import asyncio
+    from sx.vloop import patched_time
+    from geckolib.config import GeckoConfig
+    from geckolib.driver import GeckoVersionProtocolHandler
+    env = Env()
+    GeckoConfig.PAUSE_BETWEEN_RETRIES_IN_SECONDS = [0, 0.0][sx.choice("zero_kind", 2)]
+    try:
+        with patched_time(env.loop):
+            R = 1 + sx.choice("retry_count", 3)
+            callers = 1 + sx.choice("callers", 2)
+
+            def mk():
+                return env.proto.get(lambda: GeckoVersionProtocolHandler.request(
+                    env.proto.get_and_increment_sequence_counter(False), parms=PARMS), None, R)
+
+            async def main():
+                return await asyncio.wait([asyncio.ensure_future(mk()) for _ in range(callers)], timeout=50.0)
+            done, pending = env.loop.run_until_complete(main(), max_time=100.0)
+            sx.check(not pending, "req.all-callers-complete-with-a-zero-pause", lambda: f"{len(pending)} pending")
+            sx.check(env.loop.time() <= callers * R * (TIMEOUT + POLL) + 1e-9, "req.finishes-within-retry-count-x-timeout-plus-pause",
+                     lambda: str(env.loop.time()))
+            sx.check(len(env.tr.sent) == callers * R, "req.all-attempts-used-before-giving-up")
+    finally:
+        env.close()
+
+
 def two_connections(sx):
     """two connections in one process: a datagram received on one never answers a request waiting on the other"""
     from sx.vloop import patched_time, FakeDatagramTransport
@@ -507,3 +536,4 @@ def units(tier):
     yield Unit("call-sites", call_sites)
     yield Unit("refresh-gate", refresh_gate)
     yield Unit("two-connections", two_connections)
+    yield Unit("zero-pause", zero_pause)
